@@ -181,7 +181,8 @@ static void randomExec(vh::Rng & r, vh::Out & out)
       continue;
     }
     long long dt;
-    if (!started) {dt = r.coin() ? r.range(0, 1000) : r.range(0, 1000000); started = true;}   // first stamp: distance to time 0
+    const bool firstStamp = !started;
+    if (!started) {dt = r.coin(1, 4) ? 0 : r.coin() ? r.range(0, 1000) : r.range(0, 1000000); started = true;}   // first stamp: distance to time 0 (sometimes exactly 0)
     else if (phase == 0) {dt = nominal;}                                                        // steady
     else if (phase == 1) {dt = std::max(1LL, nominal + r.range(-nominal / 4, nominal / 4));}    // jittered
     else if (phase == 2) {dt = r.range(1, std::max(1LL, nominal / 8));}                         // burst
@@ -189,6 +190,7 @@ static void randomExec(vh::Rng & r, vh::Out & out)
     else {dt = r.range(1, maxp);}
     dt = std::min(dt, started && s > 0 ? maxp : 1000000LL);
     out.puts(o.stamp(dt));
+    if (firstStamp && r.coin(1, 3)) {out.puts(o.heartbeat(r.coin() ? r.range(T / 2 + 1, 3 * T) : r.range(0, T)));}      // silence right after the first stamp
     if (o.mon && r.coin(1, 30)) {
       std::unique_ptr<RateMonitoring> c(new RateMonitoring(*o.mon)); o.mon = std::move(c);                  // continue on a copy
       out.puts(o.heartbeat(0));                                                                           // and observe it at once: same rate, no timeout
